@@ -8,8 +8,16 @@ RULE = ('seeded histories of 1-4 sessions (optimistic / immediate / optimistic=F
         'delete, reads, flush / commit / rollback, session end by exit, exception or rollback, under flush-timing '
         'policies never / always / seeded; oracle: after every commit the raw dump equals the reference model, after '
         'every rollback / failure it equals the previously committed model. Non-trivial = at least two accepted '
-        'modifications and one commit or failed flush; distinct by (variant, sessions, policy, knobs).')
+        'modifications and one commit or failed flush; distinct by (variant, sessions, policy, knobs). '
+        'Fault kind "peer write" (every 5th history): a second connection commits one small write behind an '
+        'optimistic session (deletes an unlinked row, empties a nullable unique column and hands the value to another '
+        'row, changes a plain column); the session goes on unjudged, is flushed and rolled back at its end; an UPDATE '
+        'that matched no row and was accepted by that flush is a committed change that is not in the database, and '
+        'after the rollback the dump equals committed state + the peer\'s write.')
 
 
 def main(tier, seed):
-    return seqcommon.main_for('C09', 'exploration', RULE, ['default', 'rels', 'delete', 'keys', 'mix', 'partial'], tier, seed)
+    return seqcommon.main_for('C09', 'exploration', RULE, ['default', 'rels', 'delete', 'keys', 'mix', 'partial'], tier, seed,
+                             extra_gens=[seqcommon.peer_gen('C09')],
+                             assumptions=['the model knows the whole database (single writer, or a peer whose one write the '
+                                          'simulator makes itself)', 'SQLite only'])
